@@ -1,5 +1,6 @@
 import MtailVerif.Proofs.IRCorrect
 import MtailVerif.Model.Lower
+import MtailVerif.Proofs.Skeletons
 /-! C01 — compiled programs compute what the language reference says.
 
 `IR.Sem` (Model/IR.lean) is the reference semantics of the typed core language the code generator
@@ -326,5 +327,16 @@ example : okSs (.cons (.cond (gt 1 0) (.cons (incr 0) (.cons (.otherwise (.cons 
   decide
 example : okSs (.cons (.condElse (.and (gt 1 0) (.or (gt 0 1) (gt 2 1))) (.cons (incr 0) .nil) (.cons (incr 1) .nil)) .nil) = true := by
   decide
+
+/-! ### regenerated control skeletons (written by lib/wire_skeletons.py) -/
+/-- Obligations over regenerated facts: the functions this property's model stands for have the
+    control skeleton the model was written against (`Proofs/Skeletons.lean`, one `rfl` per function
+    or clause; DESIGN.md §11.6a) -/
+theorem line_skeletons : Skeletons.LineShape := Skeletons.line_shape
+theorem symbols_skeletons : Skeletons.SymbolsShape := Skeletons.symbols_shape
+theorem exec_skeletons : Skeletons.ExecShape := Skeletons.exec_shape
+theorem compare_skeletons : Skeletons.CompareShape := Skeletons.compare_shape
+theorem codegenBefore_skeletons : Skeletons.CodegenBeforeShape := Skeletons.codegenBefore_shape
+theorem codegenAfter_skeletons : Skeletons.CodegenAfterShape := Skeletons.codegenAfter_shape
 
 end MtailVerif.C01
